@@ -107,21 +107,23 @@ Definition erase_outcome (o : outcome) : outcome :=
 
 Lemma run_input_erase f now s i : run_input f0 now (erase s) i = erase_outcome (run_input f now s i).
 Proof.
-  destruct i as [ps ts ref md amd force | id force at_eff rmeta | [a|id] md | [a|id] k]; cbn [run_input].
-  - destruct ps as [|p ps']; [reflexivity|]. cbn [erase s_vols].
+  script_split i.
+  { cbn [run_input]. unfold create_tx. destruct ps as [|p ps']; [reflexivity|]. cbn [erase s_vols].
     destruct (feasible force (s_vols s) (p :: ps')); cbn [negb]; [|reflexivity].
     destruct (commit_transaction f now s (p :: ps') md ts ref) as [s1 o] eqn:E.
     change (s_vols s) with (s_vols (erase s)). rewrite (commit_erase _ _ _ _ _ _ _ _ _ E).
     destruct o as [t|]; cbn [option_map erase_outcome strip_payload]; [|reflexivity].
-    rewrite upsert_tx_accounts_erase. reflexivity.
+    rewrite upsert_tx_accounts_erase. reflexivity. }
+  destruct i as [ps ts ref md amd force | id force at_eff rmeta | [a|id] md | [a|id] k | ps ts ref md amd force smd samd];
+    [apply Hc | | | | | | ]; cbn [run_input].
   - cbn [erase s_txs]. rewrite find_tx_strip. destruct (find_tx (s_txs s) id) as [t|]; cbn [option_map erase_outcome]; [|reflexivity].
     cbn [strip_tx t_rev]. destruct (t_rev t); [reflexivity|].
     set (mark := fun x : tx => tx_with x (t_meta x) now (Some now)).
-    assert (Hc : commutes mark) by (apply (tx_with_commutes t_meta now (fun _ => Some now)); reflexivity).
+    assert (Hcm : commutes mark) by (apply (tx_with_commutes t_meta now (fun _ => Some now)); reflexivity).
     change (map strip_tx (s_txs s)) with (s_txs (erase s)).
     replace ({| s_vols := s_vols s; s_txs := s_txs (erase s); s_moves := []; s_accounts := s_accounts s; s_ahist := []; s_thist := [];
                 s_logs := map strip_log (s_logs s); s_next_tx := s_next_tx s; s_next_log := s_next_log s; s_next_seq := 1 |}) with (erase s) by reflexivity.
-    rewrite <- (touch_tx_erase f s t mark Hc). cbn [strip_tx t_postings t_ts]. change (s_vols (erase (touch_tx f s t mark))) with (s_vols (touch_tx f s t mark)).
+    rewrite <- (touch_tx_erase f s t mark Hcm). cbn [strip_tx t_postings t_ts]. change (s_vols (erase (touch_tx f s t mark))) with (s_vols (touch_tx f s t mark)).
     destruct (if force then RCOk else revert_balances_ok (t_postings t) (s_vols (touch_tx f s t mark))); cbn [erase_outcome]; try reflexivity.
     match goal with |- context [commit_transaction f now ?a ?b ?c ?d ?e] => destruct (commit_transaction f now a b c d e) as [s2 o] eqn:E end.
     rewrite (commit_erase _ _ _ _ _ _ _ _ _ E). destruct o as [r|]; cbn [option_map erase_outcome strip_payload]; [|reflexivity].
@@ -131,13 +133,18 @@ Proof.
     rewrite (upsert_account_snd_off now (s_accounts s) [] a md (Some now) None None). reflexivity.
   - cbn [erase s_txs]. rewrite find_tx_strip. destruct (find_tx (s_txs s) id) as [t|]; cbn [option_map erase_outcome]; [|reflexivity].
     cbn [strip_tx t_meta]. destruct (mcontains (t_meta t) md); cbn [erase_outcome strip_payload]; [reflexivity|].
-    assert (Hc : commutes (fun x => tx_with x (mmerge (t_meta x) md) now (t_rev x))) by (apply (tx_with_commutes (fun x => mmerge (t_meta x) md) now t_rev); reflexivity).
-    rewrite (touch_tx_erase f s t _ Hc). reflexivity.
+    assert (Hcm : commutes (fun x => tx_with x (mmerge (t_meta x) md) now (t_rev x))) by (apply (tx_with_commutes (fun x => mmerge (t_meta x) md) now t_rev); reflexivity).
+    rewrite (touch_tx_erase f s t _ Hcm). reflexivity.
   - cbn [erase s_accounts]. destruct (find_account (s_accounts s) a) as [x|]; cbn [erase_outcome strip_payload]; reflexivity.
   - cbn [erase s_txs]. rewrite find_tx_strip. destruct (find_tx (s_txs s) id) as [t|]; cbn [option_map erase_outcome]; [|reflexivity].
     cbn [strip_tx t_meta]. destruct (mget (t_meta t) k); cbn [erase_outcome strip_payload]; [|reflexivity].
-    assert (Hc : commutes (fun x => tx_with x (mdel (t_meta x) k) now (t_rev x))) by (apply (tx_with_commutes (fun x => mdel (t_meta x) k) now t_rev); reflexivity).
-    rewrite (touch_tx_erase f s t _ Hc). reflexivity.
+    assert (Hcm : commutes (fun x => tx_with x (mdel (t_meta x) k) now (t_rev x))) by (apply (tx_with_commutes (fun x => mdel (t_meta x) k) now t_rev); reflexivity).
+    rewrite (touch_tx_erase f s t _ Hcm). reflexivity.
+  - (* script create: both sides fail alike, or both are the plain create of the merged metadata *)
+    destruct ps as [|p ps']; [reflexivity|]. cbn [erase s_vols].
+    destruct (feasible force (s_vols s) (p :: ps')); cbn [negb]; [|reflexivity].
+    destruct (script_tx_meta smd md) as [md'|]; [|reflexivity].
+    exact (Hc (p :: ps') ts ref md' (script_acc_meta samd amd) force).
 Qed.
 
 Definition erase_result (r : step_result) : step_result := match r with SR s x => SR (erase s) x | SPanic => SPanic end.
